@@ -85,8 +85,7 @@ func c16r2(r *R) {
 		a := callOf(s).Args
 		ok, _ := constString(a[1])
 		gs := c.guardStrs(s.Block())
-		failed := hasGuardContaining(gs, "+", "tlsHandshakeWithTimeout(") && hasGuardContaining(gs, "+", " != nil)") && guardIsErr(gs, "tlsHandshakeWithTimeout(") ||
-			guardIsErr(gs, "GetClientHello(")
+		failed := guardErrOn(gs, "tlsHandshakeWithTimeout(") || guardErrOn(gs, "GetClientHello(")
 		n++
 		o := r.Ob("C16.R2", "labels:"+c.Pos(instrPos(s))[strings.LastIndex(c.Pos(instrPos(s)), "/")+1:]).AtI(s)
 		o.Construct = "labels:" + ok + ":" + failKind(gs)
@@ -94,7 +93,7 @@ func c16r2(r *R) {
 			p, isC := constString(a[2])
 			o.Check(ok == "0" && isC && p == "", "on a handshake/capture failure path the counter is labelled (%s, %s), want (\"0\", \"\")", c.Expr(a[1]), c.Expr(a[2]))
 		} else {
-			hsOK := hasGuardContaining(gs, "-", "tlsHandshakeWithTimeout(") && hasGuardContaining(gs, "-", "GetClientHello(")
+			hsOK := guardOkOn(gs, "tlsHandshakeWithTimeout(") && guardOkOn(gs, "GetClientHello(")
 			o.Check(hsOK, "success-labelled increment is not dominated by handshake success and capture success; guards %v", gs)
 			pe := c.Expr(a[2])
 			o.Check(ok == "1", "on the success path ok label is %s, want \"1\"", c.Expr(a[1]))
@@ -154,7 +153,7 @@ func c16r3(r *R) {
 	found := false
 	eachInstr(sc, func(i ssa.Instruction) {
 		al, ok := i.(*ssa.Alloc)
-		if !ok || !strings.HasSuffix(typeName(al.Type()), "hack.TLSClientHelloConn") {
+		if !ok || !allocOfStruct(al, "hack.TLSClientHelloConn") {
 			return
 		}
 		f := complitFields(al)
